@@ -153,8 +153,20 @@ func (w *World) loadContractFile(path string) error {
 		switch kw {
 		case "func":
 			name := strings.TrimSpace(rest)
+			// "func NAME group G": a block of clauses that only takes part when
+			// group G is enabled (properties.json "groups" / govc func -groups)
+			grp := ""
+			if i := strings.Index(name, " group "); i >= 0 {
+				grp = strings.TrimSpace(name[i+7:])
+				name = strings.TrimSpace(name[:i])
+			}
 			if !strings.Contains(name, ".") || strings.HasPrefix(name, "(") || (name[0] >= 'A' && name[0] <= 'Z') {
 				name = pkgShort + "." + name
+			}
+			if grp != "" && !w.Groups[grp] {
+				// disabled group: clauses are parsed (syntax errors still show) into a throw-away contract
+				cur = &Contract{Func: name, PkgPath: pkgPath, File: path, LoopInv: map[int][]*Clause{}, AtCalls: map[string][]*Clause{}, Trace: map[string]bool{}}
+				break
 			}
 			cur = w.Contracts[name]
 			if cur == nil {
